@@ -399,6 +399,10 @@ fn apply(cx: &Ctxm, st: &St, o: u8) -> St {
             }
         }
     }
+    // the switch was applied to a clone: the curve it was cloned from must still be in its own state
+    if bad.is_none() && state_key(&st.obj, &st.tags, &st.bad) != st.key {
+        bad = Some(("clone-shares-state".into(), format!("the curve the clone was taken from changed when the clone was switched {} -> {}", st.order, o)));
+    }
     let key = state_key(&obj, &tags, &bad);
     St { obj, tags, order: o, bad, key }
 }
@@ -682,7 +686,7 @@ pub fn cases(tier: Tier) -> Vec<Case> {
             }
         }
     }
-    for n in [9usize, 10, 11, 12, 16, 17, 24, 33, 101, 112, 130, 210] {
+    for n in [9usize, 10, 11, 12, 16, 17, 24, 33, 101, 112, 130, 210, 256, 257, 300] {
         for rule in 0..5u8 {
             for ctor in 0..2u8 {
                 for (rev, grid) in [(false, 0u8), (true, 0), (false, 1), (true, 2), (false, 3), (true, 4), (false, 5)] {
@@ -718,7 +722,7 @@ pub fn run(ctx: &Ctx, replay_file: Option<String>) -> ! {
          look-up (all query dates of C11) equals the float curve's value to 1e-14 and has gradient and Hessian, read \
          back by name, equal to the RefDual derivatives of the rule's closed form w.r.t. the two node values used and \
          exactly zero for every other node; index_value = base / value as a number of the curve's order, 0 before the \
-         first node, Err without a base. In addition float curves of 9, 10, 11, 12, 16, 17, 24, 33, 101, 112, 130, 210 nodes (two- and three-digit tag \
+         first node, Err without a base. In addition float curves of 9, 10, 11, 12, 16, 17, 24, 33, 101, 112, 130, 210, 256, 257, 300 nodes (two- and three-digit tag \
          names; uneven, evenly spaced, and evenly spaced with displaced interior nodes) are taken through the switch sequence 1, 2, 1, 0, 2 with the same checks on every node and look-up; and every ordered pair of (curve id, node count) configurations from 8 ids (colliding concatenations, trailing digits, empty, multi-byte) x 6 counts is switched A, B, A, B, A on one thread with every node tag checked.",
         json!({"initial_states": nexp, "fixpoints_reached": fix}),
     );
